@@ -31,7 +31,7 @@ func c04Scenario(rng *vrng, idx int64) coreScenario {
 	return sc
 }
 
-func TestVerifC04(t *testing.T) {
+func TestVerifC04Core(t *testing.T) {
 	rec := newRec(t, "C04")
 	defer rec.finish(t)
 	env := rec.env
@@ -135,7 +135,6 @@ func TestVerifC04(t *testing.T) {
 			rec.sample("adversary", 2, scenarioBrief(&sc))
 		}
 	})
-	c04SessionPart(t, rec, &caseIdx)
 }
 
 // advMutate forges header fields around the edges the victim v cares about.
@@ -165,4 +164,11 @@ func advMutate(rng *vrng, sg *wseg, v *KCP) {
 			sg.sn = v.snd_una + uint32(rng.intn(int(v.snd_nxt-v.snd_una)+2))
 		}
 	}
+}
+
+func TestVerifC04Sess(t *testing.T) {
+	rec := newRec(t, "C04")
+	defer rec.finish(t)
+	var caseIdx int64 = 1 << 32
+	c04SessionPart(t, rec, &caseIdx)
 }
